@@ -76,11 +76,21 @@ func invariants(f map[string]string, prefix string, rows []rowT, regime string, 
 	var catOrder []string
 	expect := map[string][]string{}
 	members := map[string]map[string]int{}
+	// a category is retained when its definition in the regime of the combo
+	// that introduces it (the combo's country, else the document's) says so
+	wantRetained := map[string]bool{}
 	for _, r := range rows {
 		for _, cb := range r.combos {
 			if _, ok := expect[cb.Cat]; !ok {
 				catOrder = append(catOrder, cb.Cat)
 				members[cb.Cat] = map[string]int{}
+				wantRetained[cb.Cat] = cb.Retained
+				if cb.Country != "" && cb.Cat != "VAT" {
+					o.Class("foreign-category-first")
+					if cb.Retained {
+						o.Class("foreign-retained-category")
+					}
+				}
 			}
 			k := groupKey(cb)
 			if members[cb.Cat][k] == 0 {
@@ -101,9 +111,8 @@ func invariants(f map[string]string, prefix string, rows []rowT, regime string, 
 		}
 		obsCats = append(obsCats, code)
 		retained := f[cp+".retained"] == "true"
-		country := regime
-		if pubdata.Retained(country, code) != retained {
-			o.Failf("partition:retained-flag", "category %s retained=%v in the summary, the published regime %s says %v", code, retained, regime, !retained)
+		if want, ok := wantRetained[code]; ok && want != retained {
+			o.Failf("partition:retained-flag", "category %s retained=%v in the summary, the published definition that applies to its first combo (document regime %s) says %v", code, retained, regime, want)
 			return false
 		}
 		var obsKeys []string
@@ -598,7 +607,7 @@ func judgeDocument(p docgen.Plan, o *vh.Obs) {
 
 func init() {
 	vh.Describe(
-		"(A) tax.TotalCalculator directly: 1-7 taxable rows with totals of either sign and 0-6 decimals (and zero), 1-4 combos each drawn from the regime's published categories (keyed rates, explicit percentages incl. 0%, exempt keys, surcharges, extension maps, per-combo country overrides), rows frequently sharing combos, with and without an included category, both rounding rules, every registered regime, currencies with 0/2/3 decimals. (B) whole documents from internal/docgen in tax-heavy mode, half of them with an included tax as the only category. Oracles: model-free invariants (groups of a category = distinct (country, percent-or-exempt, surcharge, extensions) of its combos, exempt apart from 0%, amount = percent of base, category = sum of groups, total = ordinary - retained incl. surcharges), the reference partition in exact decimals (family of tax working precisions), and the gross-sum relation when prices include the only tax. Non-trivial: a category with >= 2 groups, a retained category, or an included tax.",
+		"(A) tax.TotalCalculator directly: 1-7 taxable rows with totals of either sign and 0-6 decimals (and zero), 1-4 combos each drawn from the regime's published categories (keyed rates, explicit percentages incl. 0%, exempt keys, surcharges, extension maps, per-combo country overrides to VAT or to any category, ordinary or retained, of another regime), rows frequently sharing combos, with and without an included category, both rounding rules, every registered regime, currencies with 0/2/3 decimals. (B) whole documents from internal/docgen in tax-heavy mode, half of them with an included tax as the only category. Oracles: model-free invariants (groups of a category = distinct (country, percent-or-exempt, surcharge, extensions) of its combos, exempt apart from 0%, amount = percent of base, category = sum of groups, total = ordinary - retained incl. surcharges), the reference partition in exact decimals (family of tax working precisions), and the gross-sum relation when prices include the only tax. Non-trivial: a category with >= 2 groups, a retained category, or an included tax.",
 		"keyed rate percentages are taken from the calculated combos (rate selection is property C12)",
 		"row order inside a category follows first appearance and is asserted only as a set",
 	)
